@@ -262,6 +262,9 @@ func execC18(t *testing.T, c C18Case) (v Verdict) {
 				cancelSeen = true
 				mu.Lock()
 				cn := live[k]
+				// (forget the old life before Cancel: as soon as Cancel returns the run loop may already be creating
+				// the next life of this key, whose reader registers itself here)
+				delete(live, k)
 				mu.Unlock()
 				if cn != nil {
 					cn.mu.Lock()
@@ -283,9 +286,6 @@ func execC18(t *testing.T, c C18Case) (v Verdict) {
 					case cn.resume <- struct{}{}:
 					default:
 					}
-					mu.Lock()
-					delete(live, k)
-					mu.Unlock()
 				}
 			case "stop":
 				stopSeen = true
